@@ -157,6 +157,8 @@ pub fn run(ctx: &mut Ctx) {
     let pubkey = key.to_public_key();
     let signer = RecSigner::dry(&key.primary_key);
     let ts = Timestamp::from_secs(1_700_000_000);
+    let key6 = zoo::key(&zoo::Spec::simple(true, zoo::Alg::Ed25519, None), 0);
+    let signer6 = RecSigner::dry(&key6.primary_key);
     let key_id: Vec<u8> = key.primary_key.legacy_key_id().as_ref().to_vec();
 
     let mk_config = || {
@@ -370,6 +372,45 @@ pub fn run(ctx: &mut Ctx) {
                             ),
                         }
                     }
+                }
+            }
+            // (a3) a v6 signer: the random salt is hashed in front of the text and must not pass through (or leave
+            // state in) the canonicaliser; fresh salt for every string, two chunkings
+            for mask in [0u64, ncomp - 1] {
+                let splits = composition_splits(len, mask);
+                let mut srng = ctx.rng("A.v6salt", (si * 4 + mask % 2) + ((len as u64) << 40));
+                let r = ctx.guarded("C14/hasher-v6", || json!({"s": hexs(&s), "mask": mask}), || {
+                    let c = SignatureConfig::v6(&mut srng, SignatureType::Text, key6.primary_key.algorithm(), HashAlgorithm::Sha512).expect("v6 config");
+                    let mut h = c.into_hasher().expect("hasher");
+                    for c in chunks_by_splits(&s, &splits) {
+                        h.write_all(c).unwrap();
+                    }
+                    h.sign(&signer6, &Password::empty())
+                });
+                ctx.eval();
+                let seen6 = signer6.take();
+                match r {
+                    Some(Ok(sig)) => {
+                        let body = sig.to_bytes().expect("sig bytes");
+                        match rfc::sig::parse_sig(&body).ok().and_then(|rs| rs.digest_document(&s).map(|d| (rs, d))) {
+                            Some((rs, want6)) => {
+                                ctx.seen("A.v6.salt-has-LF-or-CR", if rs.salt.contains(&b'\n') || rs.salt.contains(&b'\r') { "yes" } else { "no" });
+                                if seen6.len() != 1 || seen6[0].digest != want6 {
+                                    ctx.violation(
+                                        format!("C14/hasher/digest-mismatch/v6/{}", class(&s)),
+                                        format!("v6 text signature: SignatureHasher digest differs from RFC digest of salt || canon(s); s={:?} chunks={:?} salt={}", String::from_utf8_lossy(&s), splits, hex::encode(&rs.salt)),
+                                        json!({"s": hexs(&s), "mask": mask, "v6": true, "salt": hex::encode(&rs.salt)}),
+                                    );
+                                }
+                            }
+                            None => ctx.inconclusive("reference cannot parse v6 signature"),
+                        }
+                    }
+                    Some(Err(e)) => ctx.violation("C14/hasher/sign-error/v6", format!("sign failed: {e}"), json!({"s": hexs(&s), "mask": mask})),
+                    None => {}
+                }
+                if ncomp == 1 {
+                    break;
                 }
             }
             // (c) in-memory normalisation
